@@ -289,6 +289,8 @@ def work_fresh_thread(job):
     import threading
     acc = Acc()
     box = {}
+    # the library is first used (and its modules imported) on THIS thread; the checks then run on a new one
+    feval.Evaluator().run('=ROUND(2.5,0)+MOD(7,3)', {})
 
     def body():
         ev = feval.Evaluator()
